@@ -30,6 +30,7 @@ var thoroughConfigs = []BuildConfig{
 	{Name: "windows/amd64", Env: []string{"GOOS=windows", "GOARCH=amd64"}},
 	{Name: "linux/386", Env: []string{"GOOS=linux", "GOARCH=386"}},
 	{Name: "linux/amd64+pdfcpu_eutl", Env: []string{"GOOS=linux", "GOARCH=amd64"}, Tags: "pdfcpu_eutl"},
+	{Name: "js/wasm", Env: []string{"GOOS=js", "GOARCH=wasm"}},
 }
 
 // Program is the loaded, type-checked and SSA-built repository.
